@@ -190,6 +190,13 @@ def main(run, args):
         for e in rng.shuffle(eps):
             ops.append({"op": "deliver", "to": "C", "msg": f"m{e}a"})
             fails.add(len(ops) - 1)
+        if i % 2 == 1:
+            # the write fails once (transient storage fault) and is retried: what the first attempt did not
+            # store must still be stored by the retry, or the consumed keys of the prior epochs come back
+            ops.append({"op": "save", "who": "C", "fail_at": [0], "may_fail": True})
+            for e in rng.shuffle(eps)[:2]:
+                ops.append({"op": "deliver", "to": "C", "msg": f"m{e}a"})
+                fails.add(len(ops) - 1)
         ops += [{"op": "save", "who": "C"}, {"op": "load", "who": "C"}]
         for e in rng.shuffle(eps):
             ops.append({"op": "deliver", "to": "C", "msg": f"m{e}a"})
@@ -219,7 +226,7 @@ def main(run, args):
             continue
         byi = {r["i"]: r for r in rs if "i" in r}
         # setup must have worked
-        bad_setup = [r for r in rs if r.get("ok") is False and r["op"] in ("create", "kp", "commit", "apply", "join", "save", "load", "app")]
+        bad_setup = [r for r in rs if r.get("ok") is False and r["op"] in ("create", "kp", "commit", "apply", "join", "save", "load", "app") and not sc["ops"][r["i"]].get("may_fail")]
         if bad_setup:
             failing.append({"what": "valid operation failed", "script": sc["name"], "record": bad_setup[0]})
             continue
